@@ -23,4 +23,5 @@ func registerStreams(m map[string]Stream) {
 	m["tdstore"] = tdStoreStream{}
 	m["clientwire"] = clientWireStream{}
 	m["tdlive"] = tdLiveStream{}
+	m["session"] = sessionStream{}
 }
